@@ -463,6 +463,81 @@ def d_xlsx(ctx):
                    f"{[info[i] for i in failing[:3]]} {log[:500]}")
 
 
+def d_ole(ctx):
+    """util/ole_text._check_property_vectors on generated property-set streams vs C12.Ole.check_vectors."""
+    import struct
+    from sharepoint2text.parsing.extractors.util import ole_text
+    rng = ctx.rng
+    fn = getattr(ole_text, "_check_property_vectors", None)
+    import ast
+    shape = ""
+    try:
+        body = ast.parse(inspect.getsource(ole_text.read_ole_metadata)).body[0].body
+        body = [b for b in body if not (isinstance(b, ast.Expr) and isinstance(b.value, ast.Constant))]    # docstring
+        shape = " ; ".join(ast.unparse(b) for b in body)
+    except Exception as e:  # noqa
+        shape = repr(e)
+    ctx.obligation("ole-guard:read_ole_metadata is `_check_property_vectors(ole); return ole.get_metadata()`",
+                   fn is not None and shape == "_check_property_vectors(ole) ; return ole.get_metadata()", shape)
+    # every get_metadata() of the legacy extractors goes through the guard
+    import re as _re
+    direct = []
+    for modname in ("doc_extractor", "ppt_extractor", "xls_extractor"):
+        src = inspect.getsource(__import__(f"sharepoint2text.parsing.extractors.ms_legacy.{modname}", fromlist=["x"]))
+        direct += [f"{modname}:{m.group(0)}" for m in _re.finditer(r"\b\w+\.get_metadata\(\)", src) if "ole" in m.group(0)]
+    ctx.obligation("ole-guard:no legacy extractor calls ole.get_metadata() directly", not direct, str(direct))
+    if fn is None:
+        return
+
+    class FakeOle:
+        def __init__(self, name, data):
+            self.name, self.data = name, data
+
+        def exists(self, n):
+            return n == self.name
+
+        def openstream(self, n):
+            return io.BytesIO(self.data)
+    cases, info = [], []
+    for it in range(ctx.n(300, 3000)):
+        nprops = rng.choice([0, 1, 2, 3, 5, 2 ** 32 - 1, rng.randint(0, 12)])
+        real = rng.randint(0, 5)
+        section = rng.choice([48, 48, 48, 44, 60, 0, 2 ** 31, rng.randint(0, 120)])
+        body = bytearray(struct.pack("<II", rng.randint(0, 400), nprops))
+        vals = bytearray()
+        entries = []
+        for k in range(real):
+            off = 8 + 8 * real + len(vals) if rng.random() < 0.8 else rng.choice([0, 4, 8, 2 ** 32 - 1, rng.randint(0, 300)])
+            entries.append((k + 2, off))
+            ptype = rng.choice([0x1E, 0x03, 0x1001, 0x1000, 0x101E, 0x100C, 0x40, 0x1003, 0xFFFF, 0x2000])
+            count = rng.choice([0, 1, 5, 40, 71, 72, 73, 200, 2 ** 16, 2 ** 32 - 1, rng.randint(0, 400)])
+            vals += struct.pack("<II", ptype, count) + rng.randbytes(rng.choice([0, 4, 12]))
+        for pid, off in entries:
+            body += struct.pack("<II", pid, off & 0xFFFFFFFF)
+        body += vals
+        head = bytearray(rng.randbytes(44)) + struct.pack("<I", section & 0xFFFFFFFF)
+        data = bytes(head) + bytes(body)
+        if rng.random() < 0.15:
+            data = data[: rng.randint(0, len(data))]
+        name = rng.choice(["\x05SummaryInformation", "\x05DocumentSummaryInformation"])
+        try:
+            fn(FakeOle(name, data))
+            ok_ = True
+        except ValueError:
+            ok_ = False
+        except Exception as e:  # noqa
+            ctx.finding(f"ole-guard-raises:{type(e).__name__}", f"_check_property_vectors raised {type(e).__name__} on a {len(data)}-byte stream",
+                        {"input": data})
+            continue
+        ctx.case(("ole", data), not ok_ or len(data) >= 56, kind="ole:" + ("accepted" if ok_ else "rejected"))
+        cases.append("([" + ";".join(str(b) for b in data) + "]%Z, " + ("true" if ok_ else "false") + ")")
+        info.append(data.hex())
+    pre = "From Coq Require Import ZArith List.\nImport ListNotations.\nFrom S2T Require Import C12.Ole.\nOpen Scope Z_scope.\n"
+    ok, failing, log = coq_eval_shards(ctx, "ole", pre, "ole_case", cases, ty="list Z * bool")
+    ctx.obligation("correspondence:check_vectors==util/ole_text._check_property_vectors", ok and not failing and len(cases) > 100,
+                   f"{[info[i] for i in failing[:3]]} {log[:500]}")
+
+
 def d_spaces(ctx):
     """<text:s text:c=RAW/> through the real read_odt: number of spaces between two tokens vs the model."""
     from sharepoint2text.parsing.extractors.open_office.odt_extractor import read_odt
@@ -769,17 +844,19 @@ def run(ctx):
     ]
     ctx.assumptions += ["resource usage is measured, not proved; the theorems cover the size arithmetic and limit decisions"]
     lim = gen_limits(ctx)
-    ctx.prove("C12/Props.v", ["C12/Proofs.vo", "C12/Corr.vo", "C12/Xlsx.vo"], expected=[
+    ctx.prove("C12/Props.v", ["C12/Proofs.vo", "C12/Corr.vo", "C12/Xlsx.vo", "C12/Ole.vo"], expected=[
         "C12_read_file_limit_exact", "C12_sevenz_limit_exact", "C12_zip_tar_oversize_untouched",
         "C12_sevenz_oversize_not_decompressed_refuted", "C12_ods_output_linear_refuted", "C12_ods_bounded_repeats_partial",
         "C12_odf_space_count_spec", "C12_odf_space_count_unbounded_refuted", "C12_xlsx_text_is_full_grid",
-        "C12_xlsx_output_linear_refuted", "C12_xlsx_output_linear_refuted_columns", "C12_xlsx_dense_sheet_linear_partial"])
+        "C12_xlsx_output_linear_refuted", "C12_xlsx_output_linear_refuted_columns", "C12_xlsx_dense_sheet_linear_partial",
+        "C12_ole_accepted_vectors_fit", "C12_ole_accepted_work_bounded", "C12_ole_unguarded_work_refuted"])
     ctx.prove("C12/Inst.v", ["Gen/C12Limits.vo", "C12/Proofs.vo"], expected=[
         "C12_sevenz_limit_is_100MB", "C12_read_file_default_on", "C12_member_limit_consistent"])
     d_limits(ctx, lim)
     d_archives(ctx)
     d_ods(ctx)
     d_xlsx(ctx)
+    d_ole(ctx)
     d_spaces(ctx)
     measured(ctx)
     scaling(ctx)
